@@ -173,3 +173,205 @@ Proof.
   unfold dent at 1. destruct (pk q) eqn:E; destruct (pdefault q); cbn [kv_find orb]; try exact IH; try reflexivity;
     (destruct (String.eqb_spec ARGS (pname q)); [congruence|exact IH]).
 Qed.
+
+(* ---------- rendering depends only on the looked-up fields ---------- *)
+Lemma forallb_ext_in' {A} (f g : A -> bool) l : (forall x, In x l -> f x = g x) -> forallb f l = forallb g l.
+Proof. induction l as [|x l IH]; cbn; intro H; [reflexivity|]. rewrite H by (left; reflexivity). rewrite IH; [reflexivity|]. intros y Hy. apply H. right. exact Hy. Qed.
+Lemma render_ext t kv1 kv2 : (forall n, In n (fields t) -> kv_find kv1 n = kv_find kv2 n) -> render t kv1 = render t kv2.
+Proof.
+  intro H. unfold render.
+  assert (F : forallb (kv_has kv1) (fields t) = forallb (kv_has kv2) (fields t)).
+  { apply forallb_ext_in'. intros n Hn. unfold kv_has. rewrite (H n Hn). reflexivity. }
+  rewrite F. f_equal. apply map_ext_in. intros g Hg. destruct g as [l|n]; [reflexivity|].
+  rewrite H; [reflexivity|]. unfold fields. apply in_flat_map. exists (Fld n). split; [exact Hg|left; reflexivity].
+Qed.
+
+(* ---------- a call without positional arguments sees what bind would have bound ---------- *)
+Lemma bind_nil s K b : bind s [] K = Some b ->
+  b = bound_map s [] K [] /\ forallb (fun p => negb (is_named p) || isSome (bound_val [] K p)) s = true.
+Proof.
+  unfold bind. cbn [bind_pos].
+  repeat match goal with |- context [if ?c then None else _] => destruct c eqn:?; [discriminate|] end.
+  intro Hb. injection Hb as Hb. subst b. split; [reflexivity|].
+  match goal with H : negb (forallb _ s) = false |- _ => apply negb_false_iff in H; exact H end.
+Qed.
+
+Lemma noargs_lookup s t given K b : wf_sig s -> wf_kwargs K -> bind s [] K = Some b ->
+  exists kv, key_values s t given [] K = Some kv /\
+    forall n, In n (fields t) -> ok_field s n -> kv_find kv n = kv_find b n.
+Proof.
+  intros Hs HK Hb. apply bind_nil in Hb as [-> Hall]. rewrite bound_map_flat.
+  assert (Named : forall p, In p s -> is_named p = true ->
+            kv_find (kv_merge (defaults s) K) (pname p) = kv_find (flat_map (entries s [] K []) s) (pname p)).
+  { intros p Hp Hn. rewrite forallb_forall in Hall. specialize (Hall p Hp). rewrite Hn in Hall. cbn [negb orb] in Hall.
+    destruct (bound_val [] K p) as [v|] eqn:Bv; [|discriminate].
+    rewrite (find_named s [] K [] Hs s p v (incl_refl s) (proj1 Hs) Hp Hn Bv).
+    rewrite kv_find_merge by exact (proj1 HK).
+    unfold bound_val in Bv. cbn [kv_find] in Bv. destruct (kv_find K (pname p)); [exact Bv|].
+    rewrite find_defaults_named; [exact Bv|exact (proj1 Hs)|exact Hp|exact Hn|].
+    intro E. apply (proj2 Hs p Hp). left. exact E. }
+  assert (NoSpecialK : forall n, special n -> kv_find K n = None).
+  { intros n Hn. apply kv_find_notin. intro Hin. apply in_map_iff in Hin as (e & <- & He). exact (proj2 HK e He Hn). }
+  assert (Args : has_kind s VP = true ->
+            kv_find (kv_merge (defaults s) K) ARGS = kv_find (flat_map (entries s [] K []) s) ARGS).
+  { intro Hv. rewrite kv_find_merge by exact (proj1 HK). rewrite (NoSpecialK ARGS (or_introl eq_refl)).
+    rewrite find_defaults_args by (intros p Hp E; apply (proj2 Hs p Hp); left; exact E).
+    rewrite has_kind_VP in Hv. rewrite Hv.
+    rewrite (find_args s [] K [] Hs HK s (incl_refl s) Hv). reflexivity. }
+  unfold key_values, call_values.
+  destruct (given && negb (mems KWARGS (fields t)) && negb (mems ARGS (fields t))) eqn:Fast.
+  - eexists. split; [reflexivity|]. intros n Hn [(p & Hp & Hnm & <-)|[[-> Hv]|[-> Hv]]].
+    + apply Named; assumption.
+    + exfalso. apply andb_true_iff in Fast as [_ F]. apply negb_true_iff in F.
+      assert (mems ARGS (fields t) = true) by (apply mems_In; exact Hn). congruence.
+    + exfalso. apply andb_true_iff in Fast as [F _]. apply andb_true_iff in F as [_ F]. apply negb_true_iff in F.
+      assert (mems KWARGS (fields t) = true) by (apply mems_In; exact Hn). congruence.
+  - eexists. split; [reflexivity|]. intros n Hn [(p & Hp & Hnm & <-)|[[-> Hv]|[-> Hv]]]; rewrite kv_find_set.
+    + destruct (String.eqb_spec (pname p) KWARGS) as [E|_]; [exfalso; apply (proj2 Hs p Hp); right; exact E|].
+      apply Named; assumption.
+    + change (String.eqb ARGS KWARGS) with false. cbn iota. apply Args. exact Hv.
+    + rewrite String.eqb_refl. rewrite has_kind_VK in Hv.
+      rewrite (find_kwargs s [] K [] Hs s (incl_refl s) Hv). reflexivity.
+Qed.
+
+Lemma any_call_lookup s t given args K b : wf_sig s -> wf_kwargs K -> bind s args K = Some b ->
+  exists kv, key_values s t given args K = Some kv /\
+    forall n, In n (fields t) -> ok_field s n -> kv_find kv n = kv_find b n.
+Proof.
+  intros Hs HK Hb. destruct args as [|a args]; [apply noargs_lookup; assumption|].
+  exists b. split; [unfold key_values, call_values; exact Hb|reflexivity].
+Qed.
+
+(* C08, first half: the key is a function of the bound arguments *)
+Theorem key_canonical s t given args1 K1 args2 K2 b :
+  wf_sig s -> wf_kwargs K1 -> wf_kwargs K2 -> (forall n, In n (fields t) -> ok_field s n) ->
+  bind s args1 K1 = Some b -> bind s args2 K2 = Some b ->
+  cache_key s t given args1 K1 = cache_key s t given args2 K2 /\ cache_key s t given args1 K1 <> None.
+Proof.
+  intros Hs H1 H2 Hf B1 B2.
+  destruct (any_call_lookup s t given args1 K1 b Hs H1 B1) as (kv1 & E1 & L1).
+  destruct (any_call_lookup s t given args2 K2 b Hs H2 B2) as (kv2 & E2 & L2).
+  unfold cache_key. rewrite E1, E2. cbn [option_map]. split; [|discriminate]. f_equal.
+  apply render_ext. intros n Hn. rewrite L1, L2; auto.
+Qed.
+
+(* ---------- C08, second half: separable values give different keys ---------- *)
+Local Open Scope string_scope.
+Fixpoint has_colon (s : string) : bool :=
+  match s with EmptyString => false | String c r => Ascii.eqb c ":" || has_colon r end.
+Definition tailish (s : string) : Prop := s = "" \/ exists r, s = String ":" r.
+
+Lemma append_inj_l (a : string) : forall b c, (a ++ b = a ++ c)%string -> b = c.
+Proof. induction a as [|x a IH]; cbn; intros b c H; [exact H|]. injection H as H. apply IH, H. Qed.
+Lemma append_nil_r (a : string) : (a ++ "")%string = a.
+Proof. induction a as [|x a IH]; cbn; [reflexivity|]. f_equal. exact IH. Qed.
+
+Lemma nocolon_split a : forall b S1 S2, has_colon a = false -> has_colon b = false -> tailish S1 -> tailish S2 ->
+  (a ++ S1 = b ++ S2)%string -> a = b.
+Proof.
+  induction a as [|x a IH]; intros [|y b] S1 S2 Ha Hb T1 T2 E; cbn [append has_colon] in *.
+  - reflexivity.
+  - exfalso. subst S1. destruct T1 as [T1|(r & T1)]; [discriminate|]. injection T1 as Hy _. subst y.
+    rewrite Ascii.eqb_refl in Hb. discriminate.
+  - exfalso. subst S2. destruct T2 as [T2|(r & T2)]; [discriminate|]. injection T2 as Hx _. subst x.
+    rewrite Ascii.eqb_refl in Ha. discriminate.
+  - injection E as Hxy E. subst y. apply orb_false_iff in Ha as [_ Ha]. apply orb_false_iff in Hb as [_ Hb].
+    f_equal. apply (IH b S1 S2); assumption.
+Qed.
+
+Lemma uint_nocolon u : has_colon (NilEmpty.string_of_uint u) = false.
+Proof. induction u; cbn; try reflexivity; exact IHu. Qed.
+Lemma dec_nocolon z : has_colon (dec z) = false.
+Proof. unfold dec, NilEmpty.string_of_int. destruct (Z.to_int z); cbn; apply uint_nocolon. Qed.
+Lemma dec_inj a b : dec a = dec b -> a = b.
+Proof.
+  unfold dec. intro H. apply (f_equal NilEmpty.int_of_string) in H. rewrite !NilEmpty.isi in H. injection H as H.
+  apply (f_equal Z.of_int) in H. rewrite !DecimalZ.of_to in H. exact H.
+Qed.
+
+Definition separable (a1 a2 : atom) : Prop :=
+  match a1, a2 with
+  | AStr s1, AStr s2 => has_colon s1 = false /\ has_colon s2 = false
+  | AInt _, AInt _ => True
+  | ABool _, ABool _ => True
+  | _, _ => False
+  end.
+Lemma separable_render a1 a2 fast : separable a1 a2 ->
+  r_val fast (KA a1) = r_atom a1 /\ r_val fast (KA a2) = r_atom a2 /\
+  has_colon (r_atom a1) = false /\ has_colon (r_atom a2) = false /\ (r_atom a1 = r_atom a2 -> a1 = a2).
+Proof.
+  destruct a1, a2; cbn; try tauto; destruct fast; cbn.
+  all: try (intros [H1 H2]; repeat split; auto; congruence).
+  all: try (intros _; repeat split; auto using dec_nocolon; intro E; f_equal; apply dec_inj; exact E).
+  all: intros _; repeat split; try (destruct b; reflexivity); try (destruct b0; reflexivity);
+       destruct b, b0; cbn; congruence.
+Qed.
+
+Fixpoint colon_sep (t : template) : bool :=
+  match t with
+  | [] => true
+  | Lit _ :: rest => colon_sep rest
+  | Fld _ :: rest => match rest with
+                     | [] => true
+                     | Lit (String c _) :: _ => Ascii.eqb c ":" && colon_sep rest
+                     | _ => false
+                     end
+  end.
+
+Definition seg_str (fast : bool) (kv : kvmap) (g : seg) : string :=
+  match g with Lit s => s | Fld n => match kv_find kv n with Some v => r_val fast v | None => "" end end.
+Definition rend (fast : bool) (kv : kvmap) (t : template) : string := String.concat "" (map (seg_str fast kv) t).
+Lemma rend_cons fast kv g t : rend fast kv (g :: t) = (seg_str fast kv g ++ rend fast kv t)%string.
+Proof. unfold rend. cbn [map String.concat]. destruct (map (seg_str fast kv) t) eqn:E; [cbn; symmetry; apply append_nil_r|reflexivity]. Qed.
+
+Lemma rend_tailish fast kv t c l : Ascii.eqb c ":" = true -> tailish (rend fast kv (Lit (String c l) :: t)).
+Proof. intro E. apply Ascii.eqb_eq in E. subst c. right. rewrite rend_cons. cbn. eexists. reflexivity. Qed.
+
+Lemma fields_cons_fld m t : fields (Fld m :: t) = m :: fields t.
+Proof. reflexivity. Qed.
+Lemma fields_cons_lit l t : fields (Lit l :: t) = fields t.
+Proof. reflexivity. Qed.
+
+Lemma separates_rend fast kv1 kv2 n a1 a2 : kv_find kv1 n = Some (KA a1) -> kv_find kv2 n = Some (KA a2) ->
+  separable a1 a2 -> a1 <> a2 ->
+  forall t, colon_sep t = true -> In n (fields t) ->
+  (forall m, In m (fields t) -> m <> n -> kv_find kv1 m = kv_find kv2 m) ->
+  rend fast kv1 t <> rend fast kv2 t.
+Proof.
+  intros F1 F2 Hsep Hne. destruct (separable_render a1 a2 fast Hsep) as (R1 & R2 & C1 & C2 & Inj).
+  induction t as [|g t IH]; intros Hcs Hin Hsame; [destruct Hin|].
+  rewrite !rend_cons. destruct g as [l|m].
+  - cbn [seg_str]. intro E. apply append_inj_l in E. revert E. apply IH; auto.
+  - rewrite fields_cons_fld in *. destruct (String.eqb_spec m n) as [->|Hmn].
+    + cbn [seg_str]. rewrite F1, F2, R1, R2. intro E. apply Hne, Inj.
+      cbn [colon_sep] in Hcs.
+      eapply nocolon_split; [exact C1|exact C2| | |exact E].
+      * destruct t as [|[[|c l]|] t']; try discriminate; [left; reflexivity|]. apply andb_true_iff in Hcs as [Hc _]. apply rend_tailish, Hc.
+      * destruct t as [|[[|c l]|] t']; try discriminate; [left; reflexivity|]. apply andb_true_iff in Hcs as [Hc _]. apply rend_tailish, Hc.
+    + cbn [seg_str]. rewrite (Hsame m (or_introl eq_refl) Hmn). intro E. apply append_inj_l in E. revert E.
+      apply IH.
+      * cbn [colon_sep] in Hcs. destruct t as [|[[|c l]|] t']; try discriminate; [reflexivity|]. apply andb_true_iff in Hcs as [_ Hc]. exact Hc.
+      * destruct Hin as [E|Hin]; [congruence|exact Hin].
+      * intros m' Hm'. apply Hsame. right. exact Hm'.
+Qed.
+
+Theorem key_separates t kv1 kv2 n a1 a2 : colon_sep t = true -> In n (fields t) ->
+  (forall m, In m (fields t) -> m <> n -> kv_find kv1 m = kv_find kv2 m) ->
+  kv_find kv1 n = Some (KA a1) -> kv_find kv2 n = Some (KA a2) -> separable a1 a2 -> a1 <> a2 ->
+  render t kv1 <> render t kv2.
+Proof.
+  intros Hcs Hin Hsame F1 F2 Hsep Hne. unfold render.
+  assert (F : forallb (kv_has kv1) (fields t) = forallb (kv_has kv2) (fields t)).
+  { apply forallb_ext_in'. intros m Hm. unfold kv_has. destruct (String.eqb_spec m n) as [->|Hmn]; [rewrite F1, F2; reflexivity|].
+    rewrite (Hsame m Hm Hmn). reflexivity. }
+  rewrite F. exact (separates_rend _ kv1 kv2 n a1 a2 F1 F2 Hsep Hne t Hcs Hin Hsame).
+Qed.
+
+(* the automatic template is ':'-separated *)
+Lemma auto_template_colon_sep prefix s : colon_sep (auto_template prefix s) = true.
+Proof.
+  unfold auto_template. cbn [colon_sep]. induction s as [|p s IH]; [reflexivity|]. cbn [flat_map].
+  destruct (pk p); cbn [app colon_sep]; try exact IH.
+  all: destruct (flat_map _ s) as [|[[|c l]|] r] eqn:E; cbn in *; try reflexivity; try exact IH;
+       destruct s as [|q s']; try discriminate; cbn in E; destruct (pk q); try discriminate; injection E as <- <- <-; try reflexivity; exact IH.
+Qed.
